@@ -334,9 +334,12 @@ func genSched(g *hx.Gen, wantHang bool) (cls string, addrs []addr, toks []string
 			}
 			variant := ""
 			if r.Chance(1, 10) {
-				variant = r.PickStr("p", "a", "m", "x")
-				if addrs[k].unix && (variant == "p" || variant == "a") {
+				variant = r.PickStr("p", "a", "m", "x", "h", "h", "q")
+				if addrs[k].unix && (variant == "p" || variant == "a" || variant == "h" || variant == "q") {
 					variant = "m"
+				}
+				if variant == "h" { // originator port 65535 is valid: handled like a plain forward below
+					st("fwd.origin-port-65535")
 				}
 			}
 			if blockedOn != nil {
@@ -349,7 +352,7 @@ func genSched(g *hx.Gen, wantHang bool) (cls string, addrs []addr, toks []string
 					continue
 				}
 				queue = append(queue, k)
-				if variant != "" {
+				if variant != "" && variant != "h" {
 					queue[len(queue)-1] = -1
 				}
 				emit(fmt.Sprintf("f%s%d", variant, k))
@@ -360,12 +363,12 @@ func genSched(g *hx.Gen, wantHang bool) (cls string, addrs []addr, toks []string
 			switch {
 			case variant == "x" || !started:
 				fwdReasons[3] = true // UnknownChannelType: no handler for the type (yet)
-			case variant != "":
+			case variant != "" && variant != "h":
 				fwdReasons[2] = true // ConnectionFailed: payload / originator does not parse
 			case lookup(k) == nil:
 				fwdReasons[1] = true // Prohibited: no listener for exactly this address
 			}
-			if variant != "" || !started {
+			if (variant != "" && variant != "h") || !started {
 				st("fwd.malformed-or-unhandled")
 				continue
 			}
@@ -825,6 +828,12 @@ func fwdPacket(a addr, id int, variant string) []byte {
 		if variant == "p" {
 			oport = 0
 		}
+		if variant == "h" { // the largest valid originator port
+			oport = 65535
+		}
+		if variant == "q" { // one above it
+			oport = 65536
+		}
 		if variant == "a" {
 			origin = "not-an-ip"
 		}
@@ -1138,7 +1147,7 @@ func connAddrOK(cn net.Conn, l net.Listener, fid int) bool {
 	if l.Addr().Network() == "unix" {
 		return cn.RemoteAddr().Network() == "unix" && cn.RemoteAddr().String() == "@"
 	}
-	return cn.RemoteAddr().String() == fmt.Sprintf("10.1.2.3:%d", 1000+fid)
+	return cn.RemoteAddr().String() == fmt.Sprintf("10.1.2.3:%d", 1000+fid) || cn.RemoteAddr().String() == "10.1.2.3:65535"
 }
 
 func dialAddrOK(cn net.Conn, a addr, variant string) bool {
